@@ -1,4 +1,5 @@
 import UncModel.Unicode
+import UncModel.LineEnd
 namespace Unc
 
 def encName : Enc → String
@@ -32,6 +33,14 @@ def handleUnicode : List String → Option String
       | none => some "fail"
       | some out => some (hexList out)
     | _, _ => some "bad-op"
+  | ["lineend.choose", opt, lf, crlf, cr] =>
+    match lf.toNat?, crlf.toNat?, cr.toNat? with
+    | some a, some b, some c => some (hexList (chooseNewline (LineEnd.ofName opt) { lf := a, crlf := b, cr := c }))
+    | _, _, _ => some "bad-op"
+  | ["lineend.ws", hex] =>
+    match parseHexList hex with
+    | some l => let r := wsScan l 0 {}; some s!"{r.1} {r.2.1.lf},{r.2.1.crlf},{r.2.1.cr} {hexList r.2.2}"
+    | none => some "bad-op"
   | _ => none
 
 end Unc
